@@ -9,6 +9,9 @@ CHECKS = {
  'C01': dict(engine='pool', tech='TLA+ pool machine (spec/TTPool.tla, exact Gaussian-integer dense semantics in spec/TTBase.tla) enumerated exhaustively by TLC; every generated behaviour replayed into scikit_tt with per-step projection of all live objects',
              text='TLC enumerates every shape vector (orders 1..3 quick / 1..4 thorough, mode sizes {1,2}, ranks {1,2}(,3), real/complex/mixed fills) and every enabled value-level action of the TT pool machine, computes the exact expected dense value in integer arithmetic, and each behaviour is replayed into the real code; model-level invariants (value semantics, metadata consistency) are checked by TLC on the same state space.',
              note='trusted: TLC, spec/TTBase.tla dense semantics, harness/pool.py projection (einsum over .cores); integer inputs so float results are exact up to 1e-9 relative', ref='§5 C01'),
+ 'C02': dict(engine='pool', tech='TLA+ pool machine (spec/TTPool.tla; dense definitions DTensordot/DConcatG/DDiag/DSqueeze/DSplit/DMerge in spec/TTBase.tla) enumerated by TLC; behaviours replayed into scikit_tt',
+             text='TLC enumerates operand shapes (incl. size-1 modes, rank-1 bonds, open boundary ranks), all four contraction modes with every axis count incl. complete contraction, mode factorisations and zero-block placements, computes the exact dense result and mode ordering, and every behaviour is replayed into the real code.',
+             note='trusted: TLC, spec/TTBase.tla dense definitions, harness/pool.py projection; ranks of results only checked for consistency with cores', ref='§5 C02'),
 }
 NA_REASON = 'check not built yet (work in progress)'
 
@@ -17,7 +20,7 @@ m = {"version": 1, "setup_cmd": "true",
                "baseline_off_cmd": "cd /repo && /venv/bin/python -m pytest -ra -q -p no:cacheprovider --timeout=900 --continue-on-collection-errors",
                "source_commits": [], "add_only": True},
      "engines": [
-         {"name": "pool", "path": "spec/TTPool.tla + harness/poolcheck.py", "serves_properties": ["C01"],
+         {"name": "pool", "path": "spec/TTPool.tla + harness/poolcheck.py", "serves_properties": sorted(CHECKS),
           "kind_free_text": "TLA+ object-pool state machine of the TT class; TLC generates behaviours with exact expected states (spec->code replay) and validates recorded traces (code->spec)"}],
      "checks": [], "not_applicable": [],
      "notes": "All checks: ./check <id> [--tier quick|thorough]; replay a violation with ./check <id> --replay <path>. Known findings: KNOWN_FINDINGS.json."}
